@@ -23,6 +23,53 @@ type callObs struct {
 	Apply   string `json:"apply"`   // ok | error | panic | skipped  (ApplyPreset of the returned spec)
 	Marshal string `json:"marshal"` // ok | error | panic | skipped  (BuildHandshakeState)
 	Detail  string `json:"detail"`  // error / panic text of apply or marshal
+	// the same spec applied and marshaled again under other ServerNames (the hello grows / shrinks around
+	// whatever the capture was sized for); Apply/Marshal above are the captured name
+	Variants []sniObs `json:"variants"`
+}
+
+type sniObs struct {
+	SNILen  int    `json:"sni_len"`
+	Apply   string `json:"apply"`
+	Marshal string `json:"marshal"`
+	Detail  string `json:"detail"`
+}
+
+const capturedSNI = "example.com" // the ServerName every capture of this family was taken with
+
+// sniVariants: names whose length is the captured one -3 .. +3, none at all, and a much longer one
+func sniVariants() []string {
+	out := []string{}
+	for d := -3; d <= 3; d++ {
+		if d < 0 {
+			out = append(out, capturedSNI[-d:])
+		} else if d > 0 {
+			out = append(out, strings.Repeat("x", d)+capturedSNI)
+		}
+	}
+	long := strings.Repeat("a", 60) + "." + strings.Repeat("b", 60) + "." + strings.Repeat("c", 60) + "." + capturedSNI
+	return append(out, "", long)
+}
+
+// applyAndMarshal applies a spec to a fresh UConn with the given ServerName and builds the hello, under recover.
+func applyAndMarshal(spec *tls.ClientHelloSpec, sni string) (apply, marshal, detail string) {
+	apply, marshal = "skipped", "skipped"
+	c, _ := hlib.BufPipe()
+	cfg := &tls.Config{ServerName: sni}
+	if sni == "" {
+		cfg.InsecureSkipVerify = true
+	}
+	uc := tls.UClient(c, cfg, tls.HelloCustom)
+	var d, at string
+	apply, d, at = try(func() error { return uc.ApplyPreset(spec) })
+	if apply != "ok" {
+		return apply, marshal, "apply: " + d + " " + at
+	}
+	marshal, d, at = try(func() error { return uc.BuildHandshakeState() })
+	if marshal != "ok" {
+		detail = "marshal: " + d + " " + at
+	}
+	return
 }
 
 func try(f func() error) (outcome, msg, at string) {
@@ -39,7 +86,7 @@ func try(f func() error) (outcome, msg, at string) {
 
 // importCall runs one importer; when it returns a spec, the spec is applied to a fresh UConn and marshaled.
 func importCall(api string, imp func() (*tls.ClientHelloSpec, error)) callObs {
-	o := callObs{API: api, Apply: "skipped", Marshal: "skipped"}
+	o := callObs{API: api, Apply: "skipped", Marshal: "skipped", Variants: []sniObs{}}
 	var spec *tls.ClientHelloSpec
 	o.Outcome, o.Err, o.PanicAt = try(func() error {
 		var err error
@@ -52,17 +99,16 @@ func importCall(api string, imp func() (*tls.ClientHelloSpec, error)) callObs {
 	if o.Outcome != "ok" || spec == nil {
 		return o
 	}
-	c, _ := hlib.BufPipe()
-	uc := tls.UClient(c, &tls.Config{ServerName: "example.com"}, tls.HelloCustom)
-	var d, at string
-	o.Apply, d, at = try(func() error { return uc.ApplyPreset(spec) })
-	if o.Apply != "ok" {
-		o.Detail = "apply: " + d + " " + at
-		return o
-	}
-	o.Marshal, d, at = try(func() error { return uc.BuildHandshakeState() })
-	if o.Marshal != "ok" {
-		o.Detail = "marshal: " + d + " " + at
+	o.Apply, o.Marshal, o.Detail = applyAndMarshal(spec, capturedSNI)
+	for _, name := range sniVariants() {
+		// a fresh import per name: applying a spec mutates its extension objects
+		var sp *tls.ClientHelloSpec
+		if oc, _, _ := try(func() error { var err error; sp, err = imp(); return err }); oc != "ok" || sp == nil {
+			continue
+		}
+		v := sniObs{SNILen: len(name)}
+		v.Apply, v.Marshal, v.Detail = applyAndMarshal(sp, name)
+		o.Variants = append(o.Variants, v)
 	}
 	return o
 }
